@@ -136,6 +136,7 @@ theorem decode_ignores_high_bits (c : CodecImpl) (conv : List Int → List Int) 
     (xs : List Int) (gs : List Nat) (hts : p.ts ∈ nativeSyntaxes) (hba : p.bitsAllocated ≠ 1)
     (hdt : decodedDType p.bitsAllocated p.pixelRepresentation = .ok dt)
     (hpr : p.pixelRepresentation = 0 ∨ p.pixelRepresentation = 1) (hpi : knownPI p.pi)
+    (hs13 : samples = 1 ∨ samples = 3)
     (hpc : (samples : Int) > 1 → p.planar = some 0) (hbs : 1 ≤ p.bitsStored ∧ p.bitsStored ≤ p.bitsAllocated)
     (hshape : shapeInRange rows cols = true) (hlen : xs.length = rows * cols * samples)
     (hfit : ∀ v ∈ xs, if p.pixelRepresentation = 1 then
@@ -158,7 +159,7 @@ theorem decode_ignores_high_bits (c : CodecImpl) (conv : List Int → List Int) 
   simp only [bind, Except.bind]
   have hbl : (dirtyBytes dt.itemsize p.bitsStored.toNat xs gs).length = rows * cols * samples * dt.itemsize := by
     rw [dirtyBytes_length, hlen]
-  rw [if_neg (by rw [hshape]; decide), if_neg (by omega), if_neg (by omega)]
+  rw [if_neg (by omega : ¬ (samples ≠ 1 ∧ samples ≠ 3)), if_neg (by rw [hshape]; decide), if_neg (by omega), if_neg (by omega)]
   have hnp : ¬ (samples > 1 ∧ p.planar = some 1) := by
     rintro ⟨hgt, hpl⟩
     have := hpc (by exact_mod_cast hgt)
@@ -263,19 +264,20 @@ theorem interleave_planarOf (npix samples : Nat) (data : List Int) (hlen : data.
 
 /-- **Planar Configuration 1 is read back colour-by-pixel**: native cells holding the planes of a colour frame one after the
 other (`R1 R2 .. G1 G2 .. B1 B2 ..`, what Planar Configuration 1 means -- `encode_frame` never writes it natively, other
-software does) decode through `decode_frame` with `planar_configuration=1` to the frame in the pixel-interleaved order every
+software does; 3 samples: pydicom refuses any other number above 1) decode through `decode_frame` with `planar_configuration=1` to the frame in the pixel-interleaved order every
 reader of highdicom returns. -/
 theorem planar_frame_decodes_interleaved (c : CodecImpl) (conv : List Int → List Int) (p : Params) (rows cols samples : Nat)
     (dt : DType) (data : List Int) (hts : p.ts ∈ nativeSyntaxes) (hba : p.bitsAllocated ≠ 1)
     (hdt : decodedDType p.bitsAllocated p.pixelRepresentation = .ok dt)
     (hpr : p.pixelRepresentation = 0 ∨ p.pixelRepresentation = 1) (hpi : knownPI p.pi)
-    (hs : samples > 1) (hpc : p.planar = some 1) (hbs : 1 ≤ p.bitsStored ∧ p.bitsStored ≤ p.bitsAllocated)
+    (hs3 : samples = 3) (hpc : p.planar = some 1) (hbs : 1 ≤ p.bitsStored ∧ p.bitsStored ≤ p.bitsAllocated)
     (hshape : shapeInRange rows cols = true) (hlen : data.length = rows * cols * samples)
     (hfit : ∀ v ∈ data, if p.pixelRepresentation = 1 then
         -(2 : Int) ^ (p.bitsStored.toNat - 1) ≤ v ∧ v < (2 : Int) ^ (p.bitsStored.toNat - 1)
       else 0 ≤ v ∧ v < (2 : Int) ^ p.bitsStored.toNat)
     (hnc : convertsColour p.pi samples = false) :
     decodeFrame c conv p rows cols samples (encodeCells dt.itemsize (planarOf (rows * cols) samples data)) = .ok data := by
+  have hs : samples > 1 := by omega
   have hsz := decodedDType_itemsize _ _ dt hdt hba
   have hroute : decodeFrameRoute false p.bitsAllocated (samples : Int) p.pi p.pixelRepresentation p.planar = .ok 2 := by
     have := decodeRoute_pydicom false p.bitsAllocated (samples : Int) p.pi p.pixelRepresentation p.planar
@@ -293,7 +295,7 @@ theorem planar_frame_decodes_interleaved (c : CodecImpl) (conv : List Int → Li
     unfold planarOf; rw [nest_length, Nat.mul_comm]
   have hbl : (encodeCells dt.itemsize (planarOf (rows * cols) samples data)).length = rows * cols * samples * dt.itemsize := by
     rw [encodeCells_length, hpl]
-  rw [if_neg (by rw [hshape]; decide), if_neg (by omega), if_neg (by omega)]
+  rw [if_neg (by omega : ¬ (samples ≠ 1 ∧ samples ≠ 3)), if_neg (by rw [hshape]; decide), if_neg (by omega), if_neg (by omega)]
   rw [hnc]
   simp only [Bool.false_eq_true, ↓reduceIte]
   rw [if_pos (⟨hs, hpc⟩ : samples > 1 ∧ p.planar = some 1)]
